@@ -200,6 +200,7 @@ def handshake(ctx, of01, of, sock, con, dpid, addrs):
 def h_registry(ctx, order):
   """order: string over 'a' (close connection 1), 'b' (close connection 2), 's' (sendToDPID probe) applied after both handshakes;
   connection 2 handshakes after connection 1 (reconnect when the dpids are equal)"""
+  HOLD[0] = False; HELD[0] = None          # (module state of feed(): a path aborted inside a coalesced chunk must not leak into this one)
   core, of01, of, nexus, log = setup(ctx)
   addrs = ctx.pox('pox.lib.addresses')
   d1 = ctx.int('dpid1', 0, (1 << 64) - 1); d2 = ctx.int('dpid2', 0, (1 << 64) - 1)
